@@ -212,7 +212,7 @@ def c03(run: Any) -> list[Finding]:
             key = (node_name, ev.get("scope", "global"))
             first_check.setdefault(key, ev)
     for (name, scope), chk in first_check.items():
-        if chk.get("answers") and all(chk["answers"]):
+        if (chk.get("answers") and all(chk["answers"])) or chk.get("produced_available"):
             later = [e for e in _starts(run) if e["bridged"] == name and e["scope"] == scope and e["idx"] > chk["idx"]]
             if later and not any(d["kind"] == "door" and d["action"] == "unset" and d["idx"] < later[0]["idx"] and d["idx"] > chk["idx"] for d in run.trace):
                 out.append((f"C03 {sc} reruns available setup {_short(name)}", f"{_short(name)} was executed by {later[0]['worker']} although all of its states were found when it was first examined in scope {scope}", {}))
